@@ -657,6 +657,55 @@ func checkC09(w *World) {
 		w.check(P, "R09.5", "xml.NewDecoder reads the caller's bytes", rx.Pos(), direct, fmt.Sprintf("the decoder is given the caller's reader itself: %v (a transcoding layer in front of it runs before the declared encoding is known and corrupts non-UTF-8 documents or hides invalid bytes)", direct))
 	}
 	w.floor(P, "R09.5", 2)
+	// R09.6 strictness of the decoder
+	docRule(P, "R09.6", "F", "the library never relaxes encoding/xml's well-formedness checks: no function of the library packages (the command passes its -u/-e flags as caller options, which is the caller's choice) stores into the Strict (other than the constant true), AutoClose, Entity or DefaultSpace field of an xml.Decoder (Strict=false accepts mismatched/unclosed tags and unknown entities; an Entity map such as xml.HTMLEntity makes undefined entities resolve silently; AutoClose closes elements the document left open). The scanner is the one that finds the CharsetReader store of R09.5, so it sees the decoder's configuration site.")
+	{
+		var bad []string
+		seenFields := map[string]bool{}
+		for _, pk := range []string{"parser", "", "store", "exec"} { // the command's -u/-e flags are the user's own request and reach the decoder as options
+			w.forAllFuncs(pk, func(fn *ssa.Function) {
+				allInstrs(fn, func(in ssa.Instruction) {
+					st, isSt := in.(*ssa.Store)
+					if !isSt {
+						return
+					}
+					fa, isFA := st.Addr.(*ssa.FieldAddr)
+					if !isFA {
+						return
+					}
+					pt, isP := fa.X.Type().Underlying().(*types.Pointer)
+					if !isP {
+						return
+					}
+					n, isN := pt.Elem().(*types.Named)
+					if !isN || n.Obj().Pkg() == nil || n.Obj().Pkg().Path() != "encoding/xml" || n.Obj().Name() != "Decoder" {
+						return
+					}
+					name := n.Underlying().(*types.Struct).Field(fa.Field).Name()
+					seenFields[name] = true
+					switch name {
+					case "Strict":
+						if c, isC := st.Val.(*ssa.Const); isC && c.Value != nil && constant.BoolVal(c.Value) {
+							return
+						}
+						bad = append(bad, fmt.Sprintf("%s: Strict set to a value other than true in %s", w.pos(st.Pos()), fn.Name()))
+					case "AutoClose", "Entity", "DefaultSpace":
+						if isNilConst(st.Val) {
+							return
+						}
+						if c, isC := st.Val.(*ssa.Const); isC && c.Value != nil && c.Value.Kind() == constant.String && constant.StringVal(c.Value) == "" {
+							return
+						}
+						bad = append(bad, fmt.Sprintf("%s: %s set in %s", w.pos(st.Pos()), name, fn.Name()))
+					}
+				})
+			})
+		}
+		sort.Strings(bad)
+		w.check(P, "R09.6", "xml.Decoder configuration", rxPos(w), len(bad) == 0 && seenFields["CharsetReader"],
+			fmt.Sprintf("decoder fields written by the repository: %v; relaxing stores: %v", keys(seenFields), orElse(strings.Join(bad, "; "), "none")))
+	}
+	w.floor(P, "R09.6", 1)
 	// namespace nodes belong to their element: ownership rules of the store
 	w.include(P, "C10", "R10.5", "R10.8")
 }
@@ -913,4 +962,11 @@ func (w *World) errorDiscipline(P string, pull *ssa.Function, tokenMethod string
 		w.check(P, "R09.4", "xsel."+name+" returns the store's error", fn.Pos(), ok, fmt.Sprintf("%v", ok))
 	}
 	w.floorSites(P, "R09.4", 6)
+}
+
+func rxPos(w *World) token.Pos {
+	if rx := w.member("parser", "ReadXml"); rx != nil {
+		return rx.Pos()
+	}
+	return token.NoPos
 }
